@@ -41,15 +41,24 @@ func GetGoogleFontURL(fontFamily string) string {
 	// Clean up the font family string - remove quotes and extra whitespace
 	fontFamily = strings.Trim(fontFamily, `"' `)
 
-	// Check each Google Font mapping
+	// Check each Google Font mapping. A font stack may name several mapped fonts
+	// ("Roboto, Open Sans, sans-serif"); pick the one listed first (the longest name on a tie)
+	// so that the result does not depend on Go's randomized map iteration order.
+	lowerFamily := strings.ToLower(fontFamily)
+	bestURL, bestName, bestIdx := "", "", -1
 	for fontName, url := range GoogleFontsMapping {
 		// Case-insensitive check and see if the font family contains this font name
-		if strings.Contains(strings.ToLower(fontFamily), strings.ToLower(fontName)) {
-			return url
+		idx := strings.Index(lowerFamily, strings.ToLower(fontName))
+		if idx == -1 {
+			continue
+		}
+		if bestIdx == -1 || idx < bestIdx ||
+			(idx == bestIdx && (len(fontName) > len(bestName) || (len(fontName) == len(bestName) && fontName < bestName))) {
+			bestURL, bestName, bestIdx = url, fontName, idx
 		}
 	}
 
-	return ""
+	return bestURL
 }
 
 // ConvertFontFamiliesToURLs converts a slice of font families to Google Font URLs
